@@ -866,6 +866,30 @@ func c09Family(ctx *Ctx) error {
 			}
 		}
 	}
+	// 5d. every named record type first in a multi-record group WITHOUT a SYSCALL record (must be an error, not a
+	// partial event), and as an auxiliary record behind the SYSCALL record
+	for _, t := range coOtherTypes {
+		for shape := 0; shape < 3 && !stop(); shape++ {
+			seq := rng.Uint32()
+			ms := int64(1500000000)*1000 + int64(rng.Intn(1000))
+			_, body := coGenBody(rng, coKOther, 1)
+			body += " items=2"
+			var c C09Case
+			first := coal.Rec{Typ: t, Seq: seq, Ms: ms, Body: body}
+			_, cwd := coGenBody(rng, coKCwd, 0)
+			_, path := coGenBody(rng, coKPath, 0)
+			switch shape {
+			case 0:
+				c.Recs = []coal.Rec{first, {Typ: tCWD, Seq: seq, Ms: ms, Body: cwd}, {Typ: tPATH, Seq: seq, Ms: ms, Body: path}, {Typ: tEOE, Seq: seq, Ms: ms}}
+			case 1:
+				c.Recs = []coal.Rec{first, {Typ: tPATH, Seq: seq, Ms: ms, Body: path}}
+			default:
+				_, sb := coGenBody(rng, coKSyscall, 0)
+				c.Recs = []coal.Rec{{Typ: tSYSCALL, Seq: seq, Ms: ms, Body: sb}, first, {Typ: tPATH, Seq: seq, Ms: ms, Body: path}}
+			}
+			add(c, "named_type_group")
+		}
+	}
 	// 5c. sizes a generated group does not reach by chance: hundreds of PATH records, EXECVE with hundreds of
 	// arguments, values of several thousand bytes, groups of hundreds of records
 	for _, n := range []int{64, 255, 256, 257, 1025} {
